@@ -130,7 +130,44 @@ async fn episode(p: &EpParams) -> EpReport {
         let t = rng.pick(&topics).clone();
         let s = rng.pick(&subs).clone();
         let step: String;
-        match rng.below(16) {
+        match rng.below(17) {
+            16 => {
+                // CreateSubscription racing a DeleteSubscription of the same (not yet existing) name:
+                // whatever the outcome, the topic's list and the set of live subscriptions must agree
+                // afterwards and the topic must keep accepting publishes
+                if !seq.m.subs.contains_key(&s) && seq.m.topics.contains_key(&t) {
+                    let (c1, c2) = (Cx::new(&w, 5), Cx::new(&w, 6));
+                    let (tp, sp, sp2) = (t.clone(), s.clone(), s.clone());
+                    let a = tokio::spawn(async move { c1.create_sub(&sp, &tp, 10).await });
+                    let b = tokio::spawn(async move {
+                        for _ in 0..3 {
+                            tokio::task::yield_now().await;
+                        }
+                        c2.delete_sub(&sp2).await
+                    });
+                    let (_ra, _rb) = (a.await, b.await);
+                    w.settle().await;
+                    // resolve by observation: does the subscription exist now?
+                    match seq.cx.get_sub(&s).await {
+                        Ok(_) => {
+                            if deleted_names.contains(&s) {
+                                recreations_checked += 1;
+                            }
+                            seq.m.create_sub(&s, &t, 10, None);
+                        }
+                        Err(_) => {
+                            deleted_names.insert(s.clone());
+                        }
+                    }
+                    seq.steps.push(format!("race create_sub({}) || delete_sub({})", short(&s), short(&s)));
+                    // the topic still works
+                    seq.publish(&t, 1).await;
+                    step = "race_create_delete_sub".into();
+                    rep.inc("create_delete_races");
+                } else {
+                    continue;
+                }
+            }
             0 | 1 => {
                 if !seq.m.topics.contains_key(&t) {
                     if deleted_names.contains(&t) {
